@@ -160,6 +160,9 @@ def run(ctx):
         elif k == "Leak":
             sig = "Leak:%s" % ev["mu"]
             text = "%s still held when %s returns (%s)" % (ev["mu"], ev["fn"], ev["pos"])
+        elif k == "RWrite":
+            sig = "RWrite:%s" % ev["mu"]
+            text = "%s holds %s in read mode (%s) and the struct it guards is written at %s" % (ev["fn"], ev["mu"], ev["pos"], ev["write"])
         elif k == "Mutex":
             sig = "Mutex:%s" % ev["mu"]
             text = "mutex %s is not part of the specification (acquired by %s)" % (ev["mu"], ev["fns"][:4])
